@@ -286,6 +286,8 @@ func (app *App) addPrefixToRoute(prefix string, route *Route) *Route {
 	route.Path = prefixedPath
 	route.path = RemoveEscapeChar(prettyPath)
 	route.routeParser = parseRoute(prettyPath, app.customConstraints...)
+	// the parameter names are those of the whole path, as for a route registered under the prefix
+	route.Params = parseRoute(prefixedPath, app.customConstraints...).params
 	route.root = false
 	route.star = false
 
